@@ -191,8 +191,12 @@ T["T6"] = (doc(
        + '</xtce:IntegerDataEncoding><xtce:EnumerationList><xtce:Enumeration label="NEG" value="-1"/><xtce:Enumeration label="ZERO" value="0"/>'
          '<xtce:Enumeration label="SEVEN" value="7"/></xtce:EnumerationList></xtce:EnumeratedParameterType>'),
     params=[("FC", "FC_T"), ("SELF", "SELF_T"), ("RT", "RT_T"), ("EC", "EC_T")],
-    root_entries=[], children=cont("P6", ["SELF", "RT", "EC", "FC"], "CCSDSPacket", CMP("APID", "6"))),
-    6 + 6, "8+4+4+32 = 48 bits")
+    root_entries=[], children=cont("P6", ["SELF", "RT", "EC", "FC"], "CCSDSPacket", CMP("APID", "6"))
+    # children selected by TWO-PARAMETER conditions whose operands use different value selectors (RT: raw r, calibrated r-5; SELF calibrated by context)
+    + cont("P6X", ["VER"], "P6", "<xtce:BooleanExpression>" + COND("RT", "&lt;", r="SELF", lcal="false", rcal="true") + "</xtce:BooleanExpression>")
+    + cont("P6Y", ["TYP"], "P6", "<xtce:BooleanExpression><xtce:ANDedConditions>" + COND("SELF", "&gt;=", r="RT", lcal="false", rcal="true")
+           + COND("RT", "!=", v="3", lcal="false") + "</xtce:ANDedConditions></xtce:BooleanExpression>")),
+    6 + 6, "8+4+4+32 = 48 bits; P6X / P6Y re-decode a header field (the packet mapping keeps its first position)")
 
 
 # T7 (object identity): SHARED is nested by OUTER1 BEFORE its own definition (forward reference), nested again by OUTER2, and is also the base of
@@ -341,6 +345,11 @@ def _pool(j, ref):
         lambda: I("M" + n, 12, "twosComplement"),
         lambda: I("M" + n, 1),
         lambda: STR("M" + n, "<xtce:Variable>" + DYN(ref, "false", 8, 8) + '<xtce:LeadingSize sizeInBitsOfSizeTag="8"/></xtce:Variable>'),
+        lambda: ('<xtce:BooleanParameterType name="M' + n + '"><xtce:IntegerDataEncoding sizeInBits="3">' + DEFCAL(POLY((4, 0), (2, 1)))
+                 + '</xtce:IntegerDataEncoding></xtce:BooleanParameterType>'),       # calibrated encoding: the boolean is still the truthiness of the RAW value
+        lambda: ('<xtce:EnumeratedParameterType name="M' + n + '"><xtce:IntegerDataEncoding sizeInBits="3" encoding="signed">' + DEFCAL(POLY((1, 0), (1, 1)))
+                 + '</xtce:IntegerDataEncoding><xtce:EnumerationList><xtce:Enumeration label="NEG" value="-1"/><xtce:Enumeration label="Z" value="0"/>'
+                 '<xtce:Enumeration label="ONE" value="1"/><xtce:Enumeration label="TWO" value="2"/></xtce:EnumerationList></xtce:EnumeratedParameterType>'),
     ]
 
 
